@@ -174,7 +174,6 @@ func VpC09Macros() {
 	vp.Assert((cx > 0) == okx && (cy > 0) == oky && (!okx || gx == cx) && (!oky || gy == cy), "counter keyed by %{matched_var} is not the number of matching values with that content")
 	if cx+cy > 0 {
 		vp.Assert(get("rid") == "2", "%{rule.id} did not expand to the id of the rule being evaluated")
-		vp.Observe("last", get("last"))
 		vp.Assert(len(get("last")) == 7 && get("last")[:6] == "ARGS:k", "%{matched_var_name} did not expand to the name of the matched variable")
 	}
 	vp.Assert(get("p") == "6", "setvar:tx.p=+%{tx.neg} with tx.neg=-4 did not add the (negative) value")
